@@ -4,6 +4,7 @@ mod explorer;
 mod graphs;
 mod hooks;
 mod market;
+mod spawnrt;
 mod testers;
 
 fn arg(args: &[String], name: &str) -> Option<String> {
@@ -24,6 +25,12 @@ fn main() {
             arg(&args, "--l").and_then(|s| s.parse().ok()).unwrap_or(3),
             arg(&args, "--m").and_then(|s| s.parse().ok()).unwrap_or(2),
             arg(&args, "--seed").and_then(|s| s.parse().ok()).unwrap_or(1),
+        ),
+        "spawn" => spawnrt::main_spawn(&inp, &out),
+        "idaddr" => spawnrt::main_idaddr(
+            &out,
+            arg(&args, "--seed").and_then(|s| s.parse().ok()).unwrap_or(1),
+            arg(&args, "--n").and_then(|s| s.parse().ok()).unwrap_or(2000),
         ),
         "explorer" => explorer::main_explorer(&inp, &out),
         "matches" => graphs::main_matches(&out),
